@@ -177,6 +177,16 @@ fn equality_types() {
     }
 }
 
+/// IntoBytes(n) of a BigUint allocates n bytes off-circuit.
+fn into_bytes_alloc() {
+    let instr = Instruction { operation: Operation::IntoBytes(usize::MAX), inputs: vec!["BigUint:05".into()], outputs: vec!["z".into()] };
+    if let Ok(r) = ZkirRelation::from_instructions(std::slice::from_ref(&instr)) {
+        if let Some(p) = compile_panics(&r) {
+            report("into_bytes_alloc", "IntoBytes(usize::MAX) of the constant BigUint:05 (off-circuit pass)".into(), &format!("ZkirRelation::public_inputs panics: {p}"), "Ok or Err");
+        }
+    }
+}
+
 /// IntoBytes(n): n is a parameter of the (untrusted) program.
 fn into_bytes_lengths() {
     use Operation::*;
@@ -273,6 +283,7 @@ fn main() {
             jubjub_constant();
             biguint_zero_bits();
             equality_types();
+            into_bytes_alloc();
             param_edges();
         }
         _ => {
